@@ -402,6 +402,14 @@ def raise_classes(chk, P):
                     chk.ob("C16.E8", "%s is an abstract method (NotImplementedError is its whole body; defined by %s)" % (
                         fi.qualname, ", ".join(sorted(c.name for c in subs))), True, site=fi.site(node), key="C16.E8|%s|abstract" % fi.fq)
                     continue
+            if not ok and name in ("ValueError", "KeyError", "TypeError", "LookupError"):
+                lit = _literal_guard(P, fi, node)
+                if lit is not None:
+                    pname, allowed, seen = lit
+                    chk.ob("C16.E8", "%s raises %s when its parameter %s is not one of %s: every call in the package passes a literal "
+                                     "from that set (%s), so no model file reaches it" % (fi.qualname, name, pname, sorted(allowed), sorted(seen)),
+                           True, site=fi.site(node), key="C16.E8|%s|literal-guard" % fi.fq)
+                    continue
             if not ok and name == "TypeError" and fi.name.startswith("_") and fi.cls is None and _guards_emptiness(fi.node, node):
                 # a private helper refusing an empty sequence the way the library function it stands for does (functools.reduce,
                 # min/max): whether a model file can make a caller pass an empty sequence is a matter of the grammar, decided by
@@ -979,6 +987,69 @@ def _callee_always_raises(P, fi, func, depth):
             and last.value.func.attr in ("error", "exit") and not "log" in ast.unparse(last.value.func.value).lower():
         return True               # the helper ends in ArgumentParser.error / sys.exit: it ends the program
     return isinstance(last, ast.Expr) and isinstance(last.value, ast.Call) and _callee_always_raises(P, callee, last.value.func, depth - 1)
+
+
+def _literal_guard(P, fi, raise_node, depth=2):
+    """the raise sits under `if <parameter> not in <constant tuple/list/set of strings>` (a class or module constant, or a
+    literal) and every call of the function in the package - followed through functions that merely hand one of their own
+    parameters on - passes a string literal that is in the set -> (parameter, allowed set, literals seen), else None"""
+    params = [a.arg for a in fi.node.args.args]
+    guard = None
+    for n in ast.walk(fi.node):
+        if isinstance(n, ast.If) and raise_node in n.body:
+            t = n.test
+            if isinstance(t, ast.UnaryOp) and isinstance(t.op, ast.Not) and isinstance(t.operand, ast.Compare):
+                c = t.operand
+                if len(c.ops) == 1 and isinstance(c.ops[0], ast.In):
+                    guard = (c.left, c.comparators[0])
+            elif isinstance(t, ast.Compare) and len(t.ops) == 1 and isinstance(t.ops[0], ast.NotIn):
+                guard = (t.left, t.comparators[0])
+    if guard is None or not (isinstance(guard[0], ast.Name) and guard[0].id in params):
+        return None
+    pname = guard[0].id
+    cexpr = guard[1]
+    if isinstance(cexpr, ast.Attribute) and isinstance(cexpr.value, ast.Name) and cexpr.value.id in ("self", "cls") and fi.cls is not None:
+        _, cexpr = fi.cls.lookup_class_attr(cexpr.attr)
+    elif isinstance(cexpr, ast.Name):
+        b = fi.module.bindings.get(cexpr.id)
+        cexpr = getattr(getattr(b, "node", None), "value", None) if b is not None and b.kind == "assign" else None
+    if not isinstance(cexpr, (ast.Tuple, ast.List, ast.Set)) or not all(isinstance(e, ast.Constant) and isinstance(e.value, str) for e in cexpr.elts):
+        return None
+    allowed = set(e.value for e in cexpr.elts)
+
+    def literals_passed(fn_name, param_index, kw, level):
+        """string literals passed for that parameter by every call of a function/method of that name in the package; None if
+        some call passes something that is neither a literal nor a handed-on parameter that can be followed"""
+        seen = set()
+        ncalls = 0
+        for m in P.modules.values():
+            if not m.name.startswith("atsim."):
+                continue
+            for f2 in [x for x in P.all_functions() if x.module is m]:
+                for c in ast.walk(f2.node):
+                    if not isinstance(c, ast.Call):
+                        continue
+                    f = c.func
+                    nm = f.attr if isinstance(f, ast.Attribute) else (f.id if isinstance(f, ast.Name) else None)
+                    if nm != fn_name:
+                        continue
+                    ncalls += 1
+                    idx = param_index - (1 if isinstance(f, ast.Attribute) else 0)
+                    arg = c.args[idx] if 0 <= idx < len(c.args) else next((k.value for k in c.keywords if k.arg == kw), None)
+                    if isinstance(arg, ast.Constant) and isinstance(arg.value, str):
+                        seen.add(arg.value)
+                    elif isinstance(arg, ast.Name) and arg.id in [a.arg for a in f2.node.args.args] and level > 0 and f2 is not fi:
+                        sub = literals_passed(f2.name, [a.arg for a in f2.node.args.args].index(arg.id), arg.id, level - 1)
+                        if sub is None:
+                            return None
+                        seen |= sub
+                    else:
+                        return None
+        return seen if ncalls else None
+    seen = literals_passed(fi.name, params.index(pname), pname, depth)
+    if seen is None or not seen or not seen <= allowed:
+        return None
+    return pname, allowed, seen
 
 
 _EMPTY_MOD = {}
